@@ -60,6 +60,7 @@ OgreArrayPoolAllocator<DataType, ContainerType, POOL_SIZE> {
     #[inline(always)]
     fn alloc_ref(&self) -> Option<(&mut DataType, u32)> {
         if let Some(slot_id) = self.free_list.consume_movable() {
+            #[cfg(feature = "verif")] crate::verif::point(crate::verif::ALLOC_AFTER_DEQUEUE);
             let mutable_pool = unsafe { &mut *(self.pool.get() as *mut Box<[DataType; POOL_SIZE]>) };
             let slot_ref = unsafe { mutable_pool.get_unchecked_mut(slot_id as usize) };
             return Some((slot_ref, slot_id));
@@ -105,6 +106,7 @@ OgreArrayPoolAllocator<DataType, ContainerType, POOL_SIZE> {
                 ptr::drop_in_place(slot);
             }
         }
+        #[cfg(feature = "verif")] crate::verif::point(crate::verif::DEALLOC_AFTER_DROP);
         self.free_list.publish_movable(slot_id);
     }
 
